@@ -238,7 +238,7 @@ CHECKS = {
         "(thorough: complete kinds^n x timeout grid for n<=3, sampled beyond; quick: complete for n<=2 + sample) with "
         "timeouts {0,20,60,200,INFINITE} and child output/exit placed before/between/after the bounds, plus a complete "
         "reproc_wait grid timeout x deadline x exit time; exact virtual return times compared with "
-        "min(timeout, earliest deadline); plus a real-clock cross-check of the virtual-time harness (src/rt.c: waits, polls and stop escalation "
+        "min(timeout, earliest deadline); polls over 65-300 sources (most process-less or repeated) under a descriptor limit of 256; plus a real-clock cross-check of the virtual-time harness (src/rt.c: waits, polls and stop escalation "
         "against children that live 5-2000 ms of real time; lower bounds only); non-trivial = a poll/wait was compared; distinct = (source kinds in order, timeout, activity)",
         {"polls_checked": 2500, "expired_deadline_polls": 300, "deadline_events": 80, "timeouts": 200,
          "wait_timeouts": 100, "expected_hangs": 10, "rt_cases": 300, "rt_lower_bounds_checked": 300,
